@@ -13,6 +13,7 @@ import (
 var (
 	verifRoot = envOr("VERIF_ROOT", "/verif")
 	repoRoot  = envOr("VERIF_REPO", "/repo")
+	outRoot   = envOr("VERIF_OUT", verifRoot) // where work/, replay/ and evidence/ go (scratch runs against mutants)
 )
 
 func envOr(k, d string) string {
